@@ -1,5 +1,7 @@
 import PycsepVerif.GeneratedSrc
 import PycsepVerif.Model.Time
+import PycsepVerif.Model.TimeExt
+import Mathlib.Data.Rat.Floor
 import PycsepVerif.Proofs.DecYear
 import PycsepVerif.Proofs.Soft64Round
 /-!
@@ -82,5 +84,159 @@ theorem decimal_year_eq_model (dt : Py.Datetime) (hy : |(Time.fields dt.us).year
       = Time.daysBeforeMonth (Time.fields us).year (Time.fields us).month + ((Time.fields us).day - 1) := by omega
   rw [ec]
   split <;> rename_i h <;> simp [h]
+
+/-! ## round 4: days ↔ milliseconds, `timedelta_from_years`, decimal year → datetime / epoch -/
+
+/-- `millis_to_days(millis)` for an integer argument: two true divisions -/
+theorem millis_to_days_eq_model (ms : Int) : Src.millis_to_days ms = Time.millisToDays ms := by
+  simp [Src.millis_to_days, Time.millisToDays, Py.intTrueDiv]
+
+/-- `days_to_millis(days)` for a float argument: two float products -/
+theorem days_to_millis_f_eq_model (d : Rat) : Src.days_to_millis_f d = Time.daysToMillisF d := rfl
+
+/-- `days_to_millis(days)` for an `int` argument: exact -/
+theorem days_to_millis_i_eq_model (d : Int) : Src.days_to_millis_i d = Time.daysToMillisI d := by
+  simp only [Src.days_to_millis_i, Time.daysToMillisI]; ring
+
+/-- `timedelta_from_years(y)` (float): ValueError iff negative, else CPython's `timedelta(seconds=31557600 * y)` -/
+theorem timedelta_from_years_eq_model (y : Rat) :
+    Src.timedelta_from_years y = match Time.timedeltaFromYears y with | none => .error .valueError | some td => .ok td := by
+  unfold Src.timedelta_from_years Time.timedeltaFromYears
+  by_cases h : y < 0 <;> simp [h, Py.timedeltaOfSecondsF]
+
+theorem floor_floor (d : Rat) : (((d.floor : Int) : Rat)).floor = d.floor := by
+  show ⌊((⌊d⌋ : Int) : Rat)⌋ = ⌊d⌋
+  exact Int.floor_intCast _
+
+theorem truncF_int (k : Int) : Py.truncF (k : Rat) = k := by
+  unfold Py.truncF
+  by_cases hk : (0 : Rat) ≤ k
+  · simp only [hk, if_true]; show ⌊(k : Rat)⌋ = k; exact Int.floor_intCast _
+  · simp only [hk, if_false]
+    have : (-(k : Rat)).floor = -k := by
+      show ⌊-(k : Rat)⌋ = -k
+      rw [← Int.cast_neg, Int.floor_intCast]
+    rw [this]; ring
+
+/-- `decimal_year_to_utc_datetime(d)` (float): a UTC datetime whose microsecond count is the model's -/
+theorem decimal_year_to_utc_datetime_eq_model (d : Rat) :
+    Src.decimal_year_to_utc_datetime d = { us := Time.decimalYearToDatetime d, tz := .utc } := by
+  have hleap : Py.isleapF (Py.np_floor d) = Time.isLeap d.floor := by
+    simp only [Py.isleapF, Py.np_floor, ffloor, floor_floor]
+  have htr : Py.truncF (Py.np_floor d) = d.floor := by
+    simp only [Py.np_floor, ffloor]; exact truncF_int _
+  have hmk : (Py.mkDatetime d.floor 1 1 0 0 0 0).us = Time.daysFromCivil d.floor 1 1 * Time.usPerDay := by
+    simp [Py.mkDatetime, Time.ofFields]
+  have hnd : (if Time.isLeap d.floor = true then (366 : Rat) else 365) = (if Time.isLeap d.floor then (366 : Rat) else 365) := rfl
+  simp only [Src.decimal_year_to_utc_datetime, hleap, htr, Py.Datetime.replaceUtc, Py.Datetime.addTd, hmk,
+    Py.timedeltaOfMicrosecondsF, Py.fmod1, Time.decimalYearToDatetime]
+
+/-- `decimal_year_to_utc_epoch(d)`: never raises (the datetime is UTC), the model's epoch milliseconds -/
+theorem decimal_year_to_utc_epoch_eq_model (d : Rat) :
+    Src.decimal_year_to_utc_epoch d = .ok (Time.decimalYearToEpoch d) := by
+  simp only [Src.decimal_year_to_utc_epoch, decimal_year_to_utc_datetime_eq_model, datetime_to_utc_epoch_eq_model,
+    Time.decimalYearToEpoch]
+  rfl
+
+/-! ## round 4: time strings — `parse_string_format`, `strptime_to_utc_datetime`, `strptime_to_utc_epoch`
+
+A string is the list of its characters. `datetime.strptime` is the prelude's `Py.strptimeUtc` (CPython's strptime as modelled
+by `Time.strptimeFields`, for the formats `%Y-%m-%d<sep>%H:%M:%S[.%f][%z]`). Strings shorter than six characters, where Python
+raises IndexError at `time_string[-6]`, are outside the specialisation (indexing is not bounds-checked). -/
+
+/-- the default value of the `format` argument -/
+def defaultFormat : List Char := Py.fmtText ⟨' ', true, false⟩
+
+theorem strAt_neg6 (s : List Char) (h : 6 ≤ s.length) : Py.strAt? s (-6) = s[s.length - 6]? := by
+  unfold Py.strAt?
+  have h1 : ¬ (0 : Int) ≤ -6 := by omega
+  have h2 : (0 : Int) ≤ (s.length : Int) + -6 := by omega
+  have h3 : ((s.length : Int) + -6).toNat = s.length - 6 := by omega
+  simp only [h1, h2, h3, if_true, if_false]
+
+/-- `parse_string_format(time_string)`: the text of the format the model sniffs -/
+theorem parse_string_format_eq_model (s : List Char) (f : Time.Format) (h : Time.parseStringFormat s = some f) :
+    Src.parse_string_format s = Py.fmtText f := by
+  unfold Time.parseStringFormat at h
+  by_cases hl : s.length < 6
+  · simp [hl] at h
+  · simp only [hl, if_false, Option.some.injEq] at h
+    subst h
+    simp only [Src.parse_string_format, strAt_neg6 s (by omega), Py.fmtText]
+    by_cases h1 : '.' ∈ s <;> by_cases h2 : (s[s.length - 6]? == some '+') = true <;> simp [h1, h2]
+
+theorem find_known (f : Time.Format) (hf : f.sep = ' ' ∨ f.sep = 'T') :
+    Py.knownFormats.find? (fun g => Py.fmtText g == Py.fmtText f) = some f := by
+  obtain ⟨sep, frac, zone⟩ := f
+  simp only at hf
+  rcases hf with rfl | rfl <;> cases frac <;> cases zone <;> decide
+
+theorem strptimeUtc_known (s : List Char) (f : Time.Format) (hf : f.sep = ' ' ∨ f.sep = 'T') :
+    Py.strptimeUtc s (Py.fmtText f) = match Time.strptimeWith f s with
+      | some us => .ok { us := us, tz := .utc } | none => .error .valueError := by
+  cases hw : Time.strptimeWith f s <;> simp [Py.strptimeUtc, find_known f hf, hw]
+
+theorem parse_sep (s : List Char) (f : Time.Format) (h : Time.parseStringFormat s = some f) : f.sep = ' ' := by
+  unfold Time.parseStringFormat at h
+  by_cases hl : s.length < 6
+  · simp [hl] at h
+  · simp only [hl, if_false, Option.some.injEq] at h; subst h; rfl
+
+/-- `strptime_to_utc_datetime(time_string)` with the default format: the model's sniffing + strptime, labelled UTC -/
+theorem strptime_to_utc_datetime_eq_model (s : List Char) (h : 6 ≤ s.length) :
+    Src.strptime_to_utc_datetime s defaultFormat = match Time.strptimeToUtcDatetime s with
+      | some us => .ok { us := us, tz := .utc } | none => .error .valueError := by
+  obtain ⟨f, hf⟩ : ∃ f, Time.parseStringFormat s = some f := by
+    unfold Time.parseStringFormat; simp [show ¬ s.length < 6 by omega]
+  have hd : (decide (defaultFormat = (['%', 'Y', '-', '%', 'm', '-', '%', 'd', ' ', '%', 'H', ':', '%', 'M', ':', '%', 'S', '.', '%', 'f'] : List Char))) = true := by decide
+  simp only [Src.strptime_to_utc_datetime, hd, if_true, parse_string_format_eq_model s f hf,
+    strptimeUtc_known s f (Or.inl (parse_sep s f hf)), Time.strptimeToUtcDatetime, hf]
+  cases hw : Time.strptimeWith f s <;> simp [hw]
+
+/-- with an explicit format (one of the modelled ones, not the default text): no sniffing -/
+theorem strptime_to_utc_datetime_explicit (s : List Char) (f : Time.Format) (hf : f.sep = ' ' ∨ f.sep = 'T')
+    (hne : Py.fmtText f ≠ defaultFormat) :
+    Src.strptime_to_utc_datetime s (Py.fmtText f) = match Time.strptimeExplicitDatetime f s with
+      | some us => .ok { us := us, tz := .utc } | none => .error .valueError := by
+  have hd : (decide (Py.fmtText f = (['%', 'Y', '-', '%', 'm', '-', '%', 'd', ' ', '%', 'H', ':', '%', 'M', ':', '%', 'S', '.', '%', 'f'] : List Char))) = false := by
+    simpa [defaultFormat, Py.fmtText] using hne
+  simp only [Src.strptime_to_utc_datetime, hd, Bool.false_eq_true, if_false, strptimeUtc_known s f hf,
+    Time.strptimeExplicitDatetime]
+  cases hw : Time.strptimeWith f s <;> simp [hw]
+
+theorem epoch_of_utc (us : Int) : Src.datetime_to_utc_epoch { us := us, tz := .utc } = .ok (Time.dtToMs us) := by
+  rw [datetime_to_utc_epoch_eq_model]; rfl
+
+/-- `strptime_to_utc_epoch(time_string)` with the default format -/
+theorem strptime_to_utc_epoch_eq_model (s : List Char) (h : 6 ≤ s.length) :
+    Src.strptime_to_utc_epoch s defaultFormat = match Time.strptimeToUtcEpoch s with
+      | some ms => .ok ms | none => .error .valueError := by
+  obtain ⟨f, hf⟩ : ∃ f, Time.parseStringFormat s = some f := by
+    unfold Time.parseStringFormat; simp [show ¬ s.length < 6 by omega]
+  have hsep := parse_sep s f hf
+  have hd : (decide (defaultFormat = (['%', 'Y', '-', '%', 'm', '-', '%', 'd', ' ', '%', 'H', ':', '%', 'M', ':', '%', 'S', '.', '%', 'f'] : List Char))) = true := by decide
+  simp only [Src.strptime_to_utc_epoch, hd, if_true, parse_string_format_eq_model s f hf]
+  -- the inner call sniffs again when the sniffed format is the default text; the result is the same format
+  have hinner : Src.strptime_to_utc_datetime s (Py.fmtText f) = match Time.strptimeWith f s with
+      | some us => .ok { us := us, tz := .utc } | none => .error .valueError := by
+    by_cases hdef : Py.fmtText f = defaultFormat
+    · rw [hdef, strptime_to_utc_datetime_eq_model s h]
+      simp only [Time.strptimeToUtcDatetime, hf]
+      cases hw : Time.strptimeWith f s <;> simp [hw]
+    · rw [strptime_to_utc_datetime_explicit s f (Or.inl hsep) hdef]; rfl
+  rw [hinner]
+  simp only [Time.strptimeToUtcEpoch, Time.strptimeToUtcDatetime, hf]
+  cases hw : Time.strptimeWith f s <;> simp [hw, epoch_of_utc]
+
+/-- `strptime_to_utc_epoch(s, format=fmt)` with an explicit modelled format (not the default text): no sniffing -/
+theorem strptime_to_utc_epoch_explicit (s : List Char) (f : Time.Format) (hf : f.sep = ' ' ∨ f.sep = 'T')
+    (hne : Py.fmtText f ≠ defaultFormat) :
+    Src.strptime_to_utc_epoch s (Py.fmtText f) = match Time.strptimeExplicitEpoch f s with
+      | some ms => .ok ms | none => .error .valueError := by
+  have hd : (decide (Py.fmtText f = (['%', 'Y', '-', '%', 'm', '-', '%', 'd', ' ', '%', 'H', ':', '%', 'M', ':', '%', 'S', '.', '%', 'f'] : List Char))) = false := by
+    simpa [defaultFormat, Py.fmtText] using hne
+  simp only [Src.strptime_to_utc_epoch, hd, Bool.false_eq_true, if_false, strptime_to_utc_datetime_explicit s f hf hne,
+    Time.strptimeExplicitDatetime, Time.strptimeExplicitEpoch]
+  cases hw : Time.strptimeWith f s <;> simp [hw, epoch_of_utc]
 
 end Src
